@@ -26,7 +26,7 @@ func c05Scenarios(thorough bool) []*explore.Scenario {
 		}
 		// reads during compaction
 		for i, rd := range [][]explore.Op{{op(explore.Get, "e"), op(explore.Get, "a")}, {op(explore.Has, "e"), op(explore.Scan, "")}, {op(explore.Scan, ""), op(explore.Count, "")}, {op(explore.GetAppend, "a"), op(explore.Has, "d")}} {
-			scs = append(scs, &explore.Scenario{Name: fmt.Sprintf("CR-%s-%d", b, i), Base: b, Cfg: "ROLL", Threads: []explore.ThreadProg{{op(explore.Compact, "")}, rd}, Bound: -1})
+			scs = append(scs, &explore.Scenario{Name: fmt.Sprintf("CR-%s-%d", b, i), Base: b, Cfg: "ROLL", Threads: []explore.ThreadProg{{op(explore.Compact, "")}, rd}, Bound: -1, QuietPop: true})
 		}
 		// two 1-letter writers
 		for i, w1 := range L {
